@@ -190,7 +190,8 @@ namespace OP2Utility::Archive
 		// Record the path to the root
 		bitCount = 0;
 		unsigned int bitString = 0;
-		NodeIndex curNodeIndex = code;
+		// Start at the node that currently holds this code
+		NodeIndex curNodeIndex = parentIndex[code + nodeCount];
 		while (curNodeIndex != rootNodeIndex)
 		{
 			unsigned int bBit = curNodeIndex & 1;  // Get the direction from parent to current node
